@@ -1191,6 +1191,8 @@ pub struct Meta {
 }
 
 pub struct MP {
+    /// for the (?=)-forced form: the same pattern as written (handed to the automata engine when it is plain)
+    other: Option<Regex>,
     re: Regex,
     names: Vec<Option<String>>,
     ngroups: usize,
@@ -1264,7 +1266,9 @@ impl PatProp for Meta {
             Ok(Err(f)) => return Prep::Fail(f),
             Ok(Ok(())) => {}
         }
-        Prep::Ready(MP { re, names: opts.names, ngroups, vm })
+        // (the class of finding F1 behaves differently in the two engines by itself; C03 reports that)
+        let other = if self.force_vm && !n.has_f1() { engine::build(&n.to_pattern_with(&naming(n))).ok_regex() } else { None };
+        Prep::Ready(MP { other, re, names: opts.names, ngroups, vm })
     }
 
     fn eval(&self, _ctx: &RunCtx, p: &MP, _n: &Node, t: &str, pos: usize) -> Verdict {
@@ -1306,6 +1310,15 @@ impl PatProp for Meta {
             }
             if c.name("nosuchname").is_some() {
                 return Err(Fail::new("name-unknown", "None", "Some"));
+            }
+            // both engine forms of one pattern report the same groups
+            if let Some(o) = &p.other {
+                if let Ok(Some(oc)) = o.captures_from_pos(t, pos) {
+                    let theirs: Vec<refm::Span> = (0..oc.len()).map(|i| oc.get(i).map(|m| (m.start(), m.end()))).collect();
+                    if theirs != by_get {
+                        return Err(Fail::new("engine-forms-differ", format!("as written: {:?}", theirs), format!("with (?=) appended: {:?}", by_get)));
+                    }
+                }
             }
             // the Index impls (by number and by name) give the text of the matched groups
             for (i, g) in by_get.iter().enumerate() {
@@ -1376,7 +1389,7 @@ impl PatProp for Meta {
 
 pub fn run_c16(ctx: &RunCtx) -> Outcome {
     let mut o = Outcome::default();
-    o.rule = "patterns from the unrestricted space (all with >= 1 group, a quarter of those without any), a hash-chosen subset of groups named (x, y1, _z, π; (?<n>..) or (?P<n>..)), back-references respelled \\k<..> / (?P=..) as required; each pattern in its own form and with (?=) appended (forces the VM); oracle from the AST: captures_len == 1 + #groups, capture_names == [None, names...], and for every match at every offset Captures::len == captures_len, iter() == get(i) for all i, get(0) is Some, get(len+k) is None, name(n) == get(index of n), caps[i] / caps[name] give the group's text, unknown name => None; Captures::iter() advanced by 0..3 next() calls and then asked for nth(0..2), the rest, step_by(2), count and size_hint agrees with get(i). Non-trivial = >= 2 groups, at least one named, at least one unmatched in the match. Distinct = distinct (pattern spelling, text, offset).".into();
+    o.rule = "patterns from the unrestricted space (all with >= 1 group, a quarter of those without any), a hash-chosen subset of groups named (x, y1, _z, π; (?<n>..) or (?P<n>..)), back-references respelled \\k<..> / (?P=..) as required; each pattern in its own form and with (?=) appended (forces the VM); oracle from the AST: captures_len == 1 + #groups, capture_names == [None, names...], and for every match at every offset Captures::len == captures_len, iter() == get(i) for all i, get(0) is Some, get(len+k) is None, name(n) == get(index of n), caps[i] / caps[name] give the group's text, unknown name => None, and the pattern as written and its (?=)-forced form report the same spans for every group; Captures::iter() advanced by 0..3 next() calls and then asked for nth(0..2), the rest, step_by(2), count and size_hint agrees with get(i). Non-trivial = >= 2 groups, at least one named, at least one unmatched in the match. Distinct = distinct (pattern spelling, text, offset).".into();
     o.assumptions = vec!["group count and names are computed from the harness AST / printer, not from the crate".into()];
     o.required_classes = vec!["engine:VM".into(), "engine:Wrap".into(), "groups:some-named".into(), "match:VM".into(), "match:Wrap".into()];
     let (enumerated, prods) = wild_spaces(ctx);
